@@ -4,6 +4,7 @@ namespace SaVerif.Drv.Lambda
 open SaVerif.Drv SaVerif.Lambda
 
 /-!
+`lambda chains <steps>` ; step = `<code ids joined by .>:<structural id>` → `hit|miss` per step (last link)
 `lambda history <steps>` ; steps joined by `;`, step = `<structural id>:<literal values|->`
  → per step `hit|miss:<bound values>` joined by `;`
 (the closure of every step is modelled as [obj id] ++ literals)
@@ -21,7 +22,23 @@ def showOut (o : List Out) : String :=
   let vs := o.filterMap (fun | .val (.lit v) => some v | _ => none)
   showIntList vs
 
+/-- `<code ids joined by .>:<structural id>` -/
+def parseChainStep? (s : String) : Option (List Nat × List CV × List CV) :=
+  match s.splitOn ":" with
+  | [path, sid] => do
+    let p ← (path.splitOn ".").mapM (·.toNat?)
+    let i ← sid.toNat?
+    pure (p, [CV.obj i], [])
+  | _ => none
+
 def handle : List String → String
+  | ["chains", steps] =>
+    -- hit / miss of the lambda cache for the LAST link of every chain
+    match (steps.splitOn ";").mapM parseChainStep? with
+    | some hs =>
+      let G : List Nat → List CV → Tmpl := fun p _ => p.map Tok.txt
+      ";".intercalate ((runChains fullKey G [] hs).map (fun r => if r.1 then "hit" else "miss"))
+    | none => "bad-op"
   | ["history", steps] =>
     match (steps.splitOn ";").mapM parseStep? with
     | some hs =>
